@@ -639,8 +639,53 @@ DEF cubaForward (dt tau_syn tau_mem r v_leak v_threshold w_in : NUM) (I v x : NU
     return {"CubaRefReal.lean": real, "CubaRefFloat.lean": flt}
 
 
+# ---------------------------------------------------------------------------------------
+# T3  file modes and context-manager use in serialization.py
+# ---------------------------------------------------------------------------------------
+def t3_file_modes():
+    item = "T3"
+    tree = ast.parse(_src("nir/serialization.py"))
+    out = {}
+    for fname, lean in (("write", "write"), ("read", "read"), ("read_version", "version")):
+        fn = _find_func(tree, fname)
+        if fn is None:
+            raise Refusal(item, f"{fname} not found")
+        calls = []
+        with_ctx = set()
+        for n in ast.walk(fn):
+            if isinstance(n, ast.With):
+                for it in n.items:
+                    with_ctx.add(id(it.context_expr))
+        for n in ast.walk(fn):
+            if isinstance(n, ast.Call):
+                f = n.func
+                if isinstance(f, ast.Attribute) and f.attr == "File" and isinstance(f.value, ast.Name) and f.value.id == "h5py":
+                    calls.append(n)
+        if len(calls) != 1:
+            raise Refusal(item, f"{fname}: expected exactly one h5py.File call, found {len(calls)}")
+        c = calls[0]
+        mode = None
+        if len(c.args) >= 2 and isinstance(c.args[1], ast.Constant) and isinstance(c.args[1].value, str):
+            mode = c.args[1].value
+        for kw in c.keywords:
+            if kw.arg == "mode" and isinstance(kw.value, ast.Constant) and isinstance(kw.value.value, str):
+                mode = kw.value.value
+            elif kw.arg not in ("mode",):
+                raise Refusal(item, f"{fname}: h5py.File keyword {kw.arg} is not modelled")
+        if mode is None:
+            raise Refusal(item, f"{fname}: file mode is not a string literal")
+        if not (c.args and isinstance(c.args[0], ast.Name) and c.args[0].id == fn.args.args[0].arg):
+            raise Refusal(item, f"{fname}: the file opened is not the function's first argument")
+        out[lean] = (mode, id(c) in with_ctx)
+    txt = HEADER + "\nnamespace NirVerif.Generated\n\n/-- mode literal of the `h5py.File(…)` call in `nir.write` / `nir.read` / `read_version`, and whether the\ncall is the context expression of a `with` statement (serialization.py) -/\n"
+    for k, (mode, w) in out.items():
+        txt += f"def {k}Mode : String := {lean_str(mode)}\ndef {k}UsesWith : Bool := {'true' if w else 'false'}\n"
+    txt += "\nend NirVerif.Generated\n"
+    return {"FileModes.lean": txt}
 
-ITEMS = {"T1": t1_fields, "T2": t2_whitelist, "T4": t4_conv_axis, "T5": t5_flatten, "T6": t6_lif, "T7": t7_cuba}
+
+
+ITEMS = {"T1": t1_fields, "T2": t2_whitelist, "T3": t3_file_modes, "T4": t4_conv_axis, "T5": t5_flatten, "T6": t6_lif, "T7": t7_cuba}
 
 
 def regenerate(out_dir=OUT, items=None):
